@@ -37,7 +37,7 @@ except FileNotFoundError:
 na = [{"property_id": p['id'], "reason": na_reasons.get(p['id'], "not yet under contract in this build of the machinery (see DESIGN.md section 4 for the planned contracts); nothing is claimed")} for p in props if p['id'] not in claimed]
 m = {"version": 1,
  "setup_cmd": "cd /verif/govc && GOFLAGS=-mod=mod GOPROXY=off GOSUMDB=off GOTOOLCHAIN=local go build -o /verif/bin/govc .",
- "hooks": {"guard": "verif", "enable": "-tags verif (the only hook is the comment-only contract file /repo/contracts_verif.go)",
+ "hooks": {"guard": "verif", "enable": "-tags verif (hooks: the comment-only contract file /repo/contracts_verif.go and /repo/lemmas_verif.go, three never-called proof harnesses that compose Dump and Restore; nothing else in /repo is guarded)",
            "baseline_off_cmd": "cd /repo && GOFLAGS=-mod=mod go test -json -vet=off -count=1 -timeout 25m ./...",
            "source_commits": hook_commits, "add_only": True},
  "engines": [{"name": "govc", "path": "/verif/govc", "serves_properties": list(claimed.keys()),
